@@ -74,6 +74,12 @@ fn render(d: &Value) -> String {
 }
 
 fn is_dynamic(d: &Value) -> bool {
+    // a directive is span-scoped iff it names a span or matches a field *value*; field names alone are static
+    d["span"].is_string() || d["fields"].as_array().map_or(false, |a| a.iter().any(|f| !f[1].is_null()))
+}
+/// EnvFilter treats a directive with a span name or any field (even without a value) as span-scoped; a
+/// directive without span name and without values is (also) static.
+fn is_span_scoped(d: &Value) -> bool {
     d["span"].is_string() || d["fields"].as_array().map_or(false, |a| !a.is_empty())
 }
 fn dir_level(d: &Value) -> u64 {
@@ -261,6 +267,9 @@ fn gen_directive(rng: &mut Rng, dynamic_ok: bool) -> Value {
         return json!({"target": target, "span": span, "fields": fields, "level": level, "spell": sp});
     }
     match roll % 10 {
+        // static directive with a field-name constraint (matches only events that have the field; for spans
+        // field names are ignored)
+        2 | 3 if roll % 3 == 0 => json!({"target": *rng.pick(&targets), "fields": [[*rng.pick(&["val", "val", "nope"]), Value::Null]], "level": rng.range(3, 5), "spell": sp}),
         0 => json!({"level": rng.below(6), "spell": sp}),                              // bare level
         1 => json!({"target": *rng.pick(&targets), "spell": sp}),                       // bare target (= TRACE)
         _ => json!({"target": *rng.pick(&targets), "level": rng.below(6), "spell": sp}),
@@ -341,7 +350,7 @@ impl Engine for DirectiveEngine {
     }
 
     fn classify_known(&self, plan: &Value, res: &RunResult) -> Option<String> {
-        if plan["mode"] == "probe:F18" && finding_open("F18") && res.class == "targets-envfilter-differ" && plan["cfg"]["dirs"].as_array().map_or(false, |a| a.iter().any(is_dynamic)) {
+        if plan["mode"] == "probe:F18" && finding_open("F18") && matches!(res.class.as_str(), "targets-envfilter-differ" | "would-enable-differs") && plan["cfg"]["dirs"].as_array().map_or(false, |a| a.iter().any(is_span_scoped)) {
             return Some("F18 Targets accepts span/field directive syntax as a literal target name".into());
         }
         if plan["mode"] == "probe:F17" && finding_open("F17") && res.detail.contains("[F17-signature]") {
@@ -360,7 +369,7 @@ impl Engine for DirectiveEngine {
         let dirs2 = dirs.clone();
         let nsteps = steps.len();
         // while F18 is open, must-hold runs compare Targets only on strings without span/field syntax
-        let with_targets = plan["mode"] == "probe:F18" || !finding_open("F18") || !dirs.iter().any(is_dynamic);
+        let with_targets = plan["mode"] == "probe:F18" || !finding_open("F18") || !dirs.iter().any(is_span_scoped);
         let body = move || {
             let reps = match build_replicas(&text2, with_targets) {
                 Ok(r) => r,
@@ -456,39 +465,54 @@ impl Engine for DirectiveEngine {
 }
 
 /// Static part of the model: the most specific caring directive decides.
-fn static_enabled(dirs: &[Value], level: u8, target: &str) -> (bool, bool) {
-    // later equal keys replace earlier ones
-    let mut table: Vec<(Option<String>, u64)> = vec![];
+/// Returns (enabled, a tie-break between >=2 caring directives happened, ambiguous: two equally specific
+/// directives with different levels both care -> not judged).
+fn static_enabled(dirs: &[Value], level: u8, target: &str, is_event: bool, fieldset: &[&str]) -> (bool, bool, bool) {
+    // later equal keys (target + field names) replace earlier ones
+    let mut table: Vec<(Option<String>, Vec<String>, u64)> = vec![];
     for d in dirs.iter().filter(|d| !is_dynamic(d)) {
         let key = d["target"].as_str().map(|s| s.to_string());
-        if let Some(e) = table.iter_mut().find(|e| e.0 == key) {
-            e.1 = dir_level(d);
+        let names: Vec<String> = d["fields"].as_array().map_or(vec![], |a| a.iter().filter_map(|f| f[0].as_str().map(|s| s.to_string())).collect());
+        if let Some(e) = table.iter_mut().find(|e| e.0 == key && e.1 == names) {
+            e.2 = dir_level(d);
         } else {
-            table.push((key, dir_level(d)));
+            table.push((key, names, dir_level(d)));
         }
     }
-    let mut best: Option<(i64, u64)> = None;
+    // most specific = longest target, then more field constraints
+    let mut best: Option<((i64, usize), u64)> = None;
+    let mut ambiguous = false;
     let mut candidates = 0;
-    for (t, l) in &table {
-        let (matches, spec) = match t {
-            Some(t) => (target.starts_with(t.as_str()), t.len() as i64),
-            None => (true, -1),
-        };
-        if matches {
+    for (t, names, l) in &table {
+        let target_ok = t.as_ref().map_or(true, |t| target.starts_with(t.as_str()));
+        let fields_ok = !is_event || names.iter().all(|n| fieldset.contains(&n.as_str()));
+        if target_ok && fields_ok {
             candidates += 1;
-            if best.map_or(true, |b| spec > b.0) {
-                best = Some((spec, *l));
+            let spec = (t.as_ref().map_or(-1, |t| t.len() as i64), names.len());
+            match best {
+                Some((b, bl)) if spec == b => {
+                    if bl != *l {
+                        ambiguous = true;
+                    }
+                }
+                Some((b, _)) if spec < b => {}
+                _ => {
+                    best = Some((spec, *l));
+                    ambiguous = false;
+                }
             }
         }
     }
-    (best.map_or(false, |b| (level as u64) <= b.1), candidates >= 2)
+    (best.map_or(false, |b| (level as u64) <= b.1), candidates >= 2, ambiguous)
 }
 
 struct MSpan {
+    site: usize,
     fsite: Option<usize>,
     x: i64,
     flag: bool,
-    y: Option<i64>,
+    /// every value recorded for `y` so far (a value matcher that matched once stays matched)
+    y: Vec<i64>,
     exists: bool,
 }
 
@@ -499,6 +523,11 @@ fn cares(d: &Value, sp: &MSpan) -> bool {
             // pool spans: name "pool_span", fields site/val/late
             if d["span"].is_string() {
                 return false;
+            }
+            if let Some(t) = d["target"].as_str() {
+                if !sites::TARGETS[sites::SITES[sp.site].1 as usize].starts_with(t) {
+                    return false;
+                }
             }
             return d["fields"].as_array().map_or(true, |a| a.iter().all(|f| matches!(f[0].as_str(), Some("site") | Some("val") | Some("late"))));
         }
@@ -514,7 +543,8 @@ fn cares(d: &Value, sp: &MSpan) -> bool {
             return false;
         }
     }
-    true
+    // every field the directive names must exist on the span's callsite
+    d["fields"].as_array().map_or(true, |a| a.iter().all(|f| matches!(f[0].as_str(), Some("x") | Some("flag") | Some("y") | Some("val"))))
 }
 fn values_match(d: &Value, sp: &MSpan) -> bool {
     d["fields"].as_array().map_or(true, |a| {
@@ -522,7 +552,8 @@ fn values_match(d: &Value, sp: &MSpan) -> bool {
             (_, Value::Null) => true,
             (Some("x"), v) => v.as_i64() == Some(sp.x),
             (Some("flag"), v) => v.as_bool() == Some(sp.flag),
-            (Some("y"), v) => sp.y.is_some() && v.as_i64() == sp.y,
+            (Some("y"), v) => v.as_i64().map_or(false, |w| sp.y.contains(&w)),
+            (Some("val"), _) | (Some("site"), _) => false,
             _ => false,
         })
     })
@@ -533,7 +564,7 @@ fn oracle(dirs: &[Value], text: &str, hist: &[H], log: &[LRec]) {
         return;
     }
     let mut dynamics: Vec<&Value> = vec![];
-    for d in dirs.iter().filter(|d| is_dynamic(d)) {
+    for d in dirs.iter().filter(|d| is_span_scoped(d)) {
         let key = |x: &Value| (x["target"].clone(), x["span"].clone(), x["fields"].clone());
         if let Some(e) = dynamics.iter_mut().find(|e| key(e) == key(d)) {
             *e = d;
@@ -589,13 +620,25 @@ fn oracle(dirs: &[Value], text: &str, hist: &[H], log: &[LRec]) {
         match h.op.as_str() {
             "event" | "span" => {
                 let (lvl, tg) = sites::SITES[h.site];
-                let (st, tie) = static_enabled(dirs, lvl, sites::TARGETS[tg as usize]);
+                let (st, tie, amb) = static_enabled(dirs, lvl, sites::TARGETS[tg as usize], h.op == "event", &["site", "val", "late"][..if h.op == "event" { 2 } else { 3 }]);
                 let raised = scope_raise(h.t, &spans, &stacks) >= lvl as i64;
                 let frozen = frozen_raise(h.t, &stacks, &raise_at_enter) >= lvl as i64;
-                let want = st || raised;
                 let kind = if h.op == "event" { "on_event" } else { "on_new_span" };
                 let got = delivered(1, kind, h.uid) == 1;
-                if got != want {
+                let mut want = st || raised;
+                let mut judged = !(amb && !raised);
+                if h.op == "span" {
+                    // a span whose callsite a span-scoped directive cares about is enabled "for the span itself";
+                    // when its level exceeds that directive's level the outcome is not judged
+                    let me = MSpan { site: h.site, fsite: None, x: 0, flag: false, y: vec![], exists: true };
+                    let caring: Vec<&&Value> = dynamics.iter().filter(|d| cares(d, &me)).collect();
+                    if caring.iter().any(|d| values_match(d, &me) && (lvl as u64) <= dir_level(d)) {
+                        want = true;
+                    } else if !caring.is_empty() && !want {
+                        judged = false;
+                    }
+                }
+                if got != want && judged {
                     let f17 = raised != frozen && got == (st || frozen);
                     let class = if got { "enabled-but-no-directive" } else { "directive-not-applied" };
                     violation(class, format!("directives {text:?}: {} at site {} (level {}, target {}) on t{} was {}; static directives say {}, entered matching spans raise the level: {}{}", h.op, h.site, lvl, sites::TARGETS[tg as usize], h.t, if got { "delivered" } else { "suppressed" }, st, raised, if f17 { " [F17-signature]" } else { "" }));
@@ -611,23 +654,23 @@ fn oracle(dirs: &[Value], text: &str, hist: &[H], log: &[LRec]) {
                     tie_break = true;
                 }
                 if h.op == "span" && got {
-                    spans.insert(h.uid, MSpan { fsite: None, x: 0, flag: false, y: None, exists: true });
+                    spans.insert(h.uid, MSpan { site: h.site, fsite: None, x: 0, flag: false, y: vec![], exists: true });
                 }
             }
             "fspan" => {
                 let (ti, _) = fsites::SITES[h.fsite];
-                let sp = MSpan { fsite: Some(h.fsite), x: h.x, flag: h.flag, y: None, exists: true };
-                let (st, _) = static_enabled(dirs, 3, fsites::TARGETS[ti as usize]);
+                let sp = MSpan { site: 0, fsite: Some(h.fsite), x: h.x, flag: h.flag, y: vec![], exists: true };
+                let (st, _, amb) = static_enabled(dirs, 3, fsites::TARGETS[ti as usize], false, &["x", "flag", "y", "val"]);
                 let raised = scope_raise(h.t, &spans, &stacks) >= 3;
                 let cared = dynamics.iter().any(|d| cares(d, &sp));
-                let matched = dynamics.iter().any(|d| cares(d, &sp) && values_match(d, &sp));
+                let matched = dynamics.iter().any(|d| cares(d, &sp) && values_match(d, &sp) && 3 <= dir_level(d));
                 let got = delivered(1, "on_new_span", h.uid) == 1;
                 if st || raised || matched {
                     if !got {
                         violation("directive-not-applied", format!("directives {text:?}: span {} (target {}, x={}, flag={}) should be enabled (static {}, scope {}, matching span directive {}) but was not created", fsites::NAMES[fsites::SITES[h.fsite].1 as usize], fsites::TARGETS[ti as usize], h.x, h.flag, st, raised, matched));
                         return;
                     }
-                } else if !cared && got {
+                } else if !cared && got && !amb {
                     violation("enabled-but-no-directive", format!("directives {text:?}: span {} (target {}) was created although no directive enables it", fsites::NAMES[fsites::SITES[h.fsite].1 as usize], fsites::TARGETS[ti as usize]));
                     return;
                 }
@@ -639,7 +682,7 @@ fn oracle(dirs: &[Value], text: &str, hist: &[H], log: &[LRec]) {
             "record_y" => {
                 if let Some(sp) = spans.get_mut(&h.uid) {
                     if sp.fsite.is_some() {
-                        sp.y = Some(h.y);
+                        sp.y.push(h.y);
                     }
                 }
             }
